@@ -495,6 +495,12 @@ class RaggedView2:
                                   np.ones_like(self.lengths))
 
         # starts, lengths, col_step = (self.starts, self.lengths, self.col_step)
+        # a start, stop or step beyond every row acts like the row bound itself; clipping them
+        # keeps the arithmetic below inside the configured index dtype (int32 wrapped silently)
+        lim = int(np.max(self.lengths, initial=0)) + 1
+        start, stop, step = (v if v is None else max(-lim, min(lim, v))
+                             for v in (col_slice.start, col_slice.stop, col_slice.step))
+        col_slice = slice(start, stop, step)
         step = 1 if col_slice.step is None else col_slice.step
         if step > 0:
             return self._pos_col_slice(slice(col_slice.start, col_slice.stop, step))
